@@ -43,7 +43,8 @@ func (b LabelDescriptors) Len() int {
 	return len(b)
 }
 func (b LabelDescriptors) Less(i, j int) bool {
-	return b[i].BundleID < b[j].BundleID
+	// same order as the archive keys labels/{repo}/{name}/label.yaml, in which batches of labels are retrieved
+	return b[i].Name+"/" < b[j].Name+"/"
 }
 
 // Last label in a LabelDescriptors slice
